@@ -11,7 +11,7 @@ or a configuration change (their computation is modelled in C01/C05; here only *
 go).  Import-free (model files only).
 -/
 import KrillModel.Ca.ObjKeys
-namespace KM.Ca
+namespace KM.CaK
 open KM.Res KM.AMap
 
 /-- `ResourceClass` -/
@@ -81,6 +81,7 @@ def Ca.apply (s : Ca) : Ev → Option Ca
   | .rcAdded rcn parent parentRcn pending =>
     some { s with nextClass := s.nextClass + 1, classes := set s.classes rcn (Rc.create parent parentRcn pending) }
   | .rcRemoved rcn => some { s with classes := del s.classes rcn }
+  | .key _ (.unexpected _) => some s   -- "no action needed" (certauth.rs:577-582): no class look-up
   | .key rcn e => s.withClass rcn fun rc => (rc.keys.apply e).map fun ks => { rc with keys := ks }
   | .products rcn u => s.withClass rcn fun rc => some (rc.applyProducts u)
   | .childCerts rcn u =>
@@ -458,4 +459,4 @@ def Sys.run (s : Sys) : List Cmd → Sys
   | [] => s
   | c :: cs => (s.next c).run cs
 
-end KM.Ca
+end KM.CaK
